@@ -52,7 +52,8 @@ type Case struct {
 	Orig    string `json:"orig,omitempty"`     // original plaintext a tampered case must not yield
 	Expect  string `json:"expect,omitempty"`
 	Got     string `json:"got,omitempty"`
-	Seq     []Case `json:"seq,omitempty"` // family "seq": the calls, in order
+	Seq     []Case `json:"seq,omitempty"`  // family "seq": the calls, in order
+	Key2    string `json:"key2,omitempty"` // family "repeat": the wrong key tried first
 }
 
 func hx(b []byte) string { return hex.EncodeToString(b) }
@@ -70,6 +71,17 @@ type outcome struct {
 	class string // ok | sentinel | aead:auth | … | panic | timeout
 	a, b  []byte // outputs
 	msg   string
+	inMod string // which INPUT buffer the call modified ("" = none)
+}
+
+// inputsChanged names the first input buffer that differs from its snapshot.
+func inputsChanged(names []string, now, before [][]byte) string {
+	for i := range names {
+		if !bytesEq(now[i], before[i]) {
+			return fmt.Sprintf("%s: %s -> %s", names[i], hx(before[i]), hx(now[i]))
+		}
+	}
+	return ""
 }
 
 func clean(s string) string {
@@ -147,7 +159,12 @@ func cp(b []byte) []byte {
 
 func callEnc(fn, alg string, key jwk.Key, nonce, pt, ad []byte) outcome {
 	o := callEnc0(fn, alg, key, nonce, pt, ad)
-	ledger.after(symCaseOf(fn, alg, key, nonce, pt, nil, ad), map[string][]byte{"ciphertext": o.a, "tag": o.b})
+	c := symCaseOf(fn, alg, key, nonce, pt, nil, ad)
+	ledger.after(c, map[string][]byte{"ciphertext": o.a, "tag": o.b})
+	if o.inMod != "" && ledger.res != nil {
+		c.Monitor, c.Mut = "input-integrity", o.inMod
+		ledger.res.Violate("sym-input-modified", "an encryption call modified one of its INPUT buffers", c)
+	}
 	return o
 }
 
@@ -155,12 +172,14 @@ func callEnc0(fn, alg string, key jwk.Key, nonce, pt, ad []byte) outcome {
 	return guarded(func() outcome {
 		var ct, tag []byte
 		var err error
+		p2, n2, a2 := cp(pt), cp(nonce), cp(ad)
 		if fn == "Encrypt" {
-			ct, tag, err = kc.Encrypt(cp(pt), alg, key, cp(nonce), cp(ad))
+			ct, tag, err = kc.Encrypt(p2, alg, key, n2, a2)
 		} else {
-			ct, tag, err = kc.EncryptSymmetric(cp(pt), alg, key, cp(nonce), cp(ad))
+			ct, tag, err = kc.EncryptSymmetric(p2, alg, key, n2, a2)
 		}
 		o := outcome{class: classify(err), a: ct, b: tag}
+		o.inMod = inputsChanged([]string{"plaintext", "nonce", "associated data"}, [][]byte{p2, n2, a2}, [][]byte{pt, nonce, ad})
 		if err != nil {
 			o.msg = err.Error()
 		}
@@ -170,7 +189,12 @@ func callEnc0(fn, alg string, key jwk.Key, nonce, pt, ad []byte) outcome {
 
 func callDec(fn, alg string, key jwk.Key, nonce, ct, tag, ad []byte) outcome {
 	o := callDec0(fn, alg, key, nonce, ct, tag, ad)
-	ledger.after(symCaseOf(fn, alg, key, nonce, ct, tag, ad), map[string][]byte{"plaintext": o.a})
+	c := symCaseOf(fn, alg, key, nonce, ct, tag, ad)
+	ledger.after(c, map[string][]byte{"plaintext": o.a})
+	if o.inMod != "" && ledger.res != nil {
+		c.Monitor, c.Mut = "input-integrity", o.inMod
+		ledger.res.Violate("sym-input-modified", "a decryption call modified one of its INPUT buffers (the caller's ciphertext / wrapped key / tag / nonce / AD)", c)
+	}
 	return o
 }
 
@@ -178,12 +202,14 @@ func callDec0(fn, alg string, key jwk.Key, nonce, ct, tag, ad []byte) outcome {
 	return guarded(func() outcome {
 		var pt []byte
 		var err error
+		c2, n2, t2, a2 := cp(ct), cp(nonce), cp(tag), cp(ad)
 		if fn == "Decrypt" {
-			pt, err = kc.Decrypt(cp(ct), alg, key, cp(nonce), cp(tag), cp(ad))
+			pt, err = kc.Decrypt(c2, alg, key, n2, t2, a2)
 		} else {
-			pt, err = kc.DecryptSymmetric(cp(ct), alg, key, cp(nonce), cp(tag), cp(ad))
+			pt, err = kc.DecryptSymmetric(c2, alg, key, n2, t2, a2)
 		}
 		o := outcome{class: classify(err), a: pt}
+		o.inMod = inputsChanged([]string{"ciphertext", "nonce", "tag", "associated data"}, [][]byte{c2, n2, t2, a2}, [][]byte{ct, nonce, tag, ad})
 		if err != nil {
 			o.msg = err.Error()
 		}
@@ -452,7 +478,7 @@ func (h *H) msgLens(s algSpec, tier string) []int {
 }
 
 func (h *H) ads() [][]byte {
-	return [][]byte{nil, {0x41}, h.rng.Bytes(13), h.rng.Bytes(64)}
+	return [][]byte{nil, {0x41}, h.rng.Bytes(13), h.rng.Bytes(64), {}, h.rng.Bytes(8)}
 }
 
 // roundTrips: valid sizes; encrypt (both entry points), compare with the model byte for byte,
@@ -494,6 +520,7 @@ func (h *H) roundTrips() {
 				if s.family == "kw" {
 					h.kwInteropMonitor(c, key, pt, outcome{class: eo.class, a: eo.a})
 				}
+				h.interopMonitor(c, alg, s, key, nonce, pt, ad, eo)
 				h.queue("encrypt output = model(Lean-native primitives)", line, canonEnc(eo), c)
 				if eo.class != "ok" {
 					continue
@@ -800,7 +827,7 @@ func (h *H) kwDirect() {
 			h.kwInteropMonitor(c, key, data, wo)
 			h.queue("aeskw.Wrap = model wrap (= Kit.Crypto.kwWrap)", line, canonOut(wo), c)
 			// Unwrap of arbitrary bytes of every length
-			uo := h.unwrapCall(blk, data)
+			uo := h.unwrapCall(key, blk, data)
 			uc := Case{Family: "kw", Monitor: "kw-unwrap-arbitrary", Key: hx(key), Data: hx(data)}
 			uline := fmt.Sprintf("kw dir=unwrap key=%s data=%s", hx(key), hx(data))
 			h.res.Count(uline, nontrivialClass(uo.class))
@@ -811,7 +838,7 @@ func (h *H) kwDirect() {
 				continue
 			}
 			// inversion, then: trailing bytes, truncation, every single-byte mutation
-			ro := h.unwrapCall(blk, wo.a)
+			ro := h.unwrapCall(key, blk, wo.a)
 			rc := Case{Family: "kw", Monitor: "kw-roundtrip", Key: hx(key), Data: hx(wo.a), Orig: hx(data)}
 			if ro.class != "ok" || !bytesEq(ro.a, data) {
 				rc.Got = canonOut(ro)
@@ -820,7 +847,7 @@ func (h *H) kwDirect() {
 			h.queue("aeskw.Unwrap = model unwrap (= Kit.Crypto.kwUnwrap)", fmt.Sprintf("kw dir=unwrap key=%s data=%s", hx(key), hx(wo.a)), canonOut(ro), rc)
 			for extra := 1; extra <= 17; extra++ {
 				in := append(cp(wo.a), h.rng.Bytes(extra)...)
-				o := h.unwrapCall(blk, in)
+				o := h.unwrapCall(key, blk, in)
 				tc := Case{Family: "kw", Monitor: "kw-changed", Key: hx(key), Data: hx(in), Orig: hx(data), Mut: fmt.Sprintf("append %d bytes", extra)}
 				l := fmt.Sprintf("kw dir=unwrap key=%s data=%s", hx(key), hx(in))
 				h.res.Count(l, nontrivialClass(o.class))
@@ -830,7 +857,7 @@ func (h *H) kwDirect() {
 			}
 			for cut := 1; cut <= len(wo.a); cut += 1 + cut/9 {
 				in := cp(wo.a[:len(wo.a)-cut])
-				o := h.unwrapCall(blk, in)
+				o := h.unwrapCall(key, blk, in)
 				tc := Case{Family: "kw", Monitor: "kw-changed", Key: hx(key), Data: hx(in), Orig: hx(data), Mut: fmt.Sprintf("truncate %d bytes", cut)}
 				l := fmt.Sprintf("kw dir=unwrap key=%s data=%s", hx(key), hx(in))
 				h.res.Count(l, nontrivialClass(o.class))
@@ -843,7 +870,7 @@ func (h *H) kwDirect() {
 					in := cp(wo.a)
 					x := byte(h.rng.Range(1, 255))
 					in[i] ^= x
-					o := h.unwrapCall(blk, in)
+					o := h.unwrapCall(key, blk, in)
 					tc := Case{Family: "kw", Monitor: "kw-changed", Key: hx(key), Data: hx(in), Orig: hx(data), Mut: fmt.Sprintf("wrapped[%d]^=0x%02x", i, x)}
 					l := fmt.Sprintf("kw dir=unwrap key=%s data=%s", hx(key), hx(in))
 					h.res.Count(l, nontrivialClass(o.class))
@@ -856,15 +883,20 @@ func (h *H) kwDirect() {
 	}
 }
 
-func (h *H) unwrapCall(blk interface {
+func (h *H) unwrapCall(kek []byte, blk interface {
 	BlockSize() int
 	Encrypt(dst, src []byte)
 	Decrypt(dst, src []byte)
 }, in []byte) outcome {
-	return guarded(func() outcome {
-		p, err := aeskw.Unwrap(blk, cp(in))
-		return outcome{class: classify(err), a: p}
+	o := guarded(func() outcome {
+		in2 := cp(in)
+		p, err := aeskw.Unwrap(blk, in2)
+		return outcome{class: classify(err), a: p, inMod: inputsChanged([]string{"wrapped key"}, [][]byte{in2}, [][]byte{in})}
 	})
+	if o.inMod != "" {
+		h.res.Violate("sym-input-modified", "aeskw.Unwrap modified the caller's wrapped key", Case{Family: "kw", Monitor: "input-integrity", Key: hx(kek), Data: hx(in), Mut: o.inMod})
+	}
+	return o
 }
 
 func canonOut(o outcome) string {
@@ -945,7 +977,7 @@ func (h *H) kwInteropMonitor(c Case, key, data []byte, o outcome) {
 		h.res.Violate("aeskw-interop-mismatch", "an independent RFC 3394 Unwrap does not recover the key data from kit's Wrap output", c)
 	}
 	blk, _ := aes.NewCipher(key)
-	if uo := h.unwrapCall(blk, want); uo.class != "ok" || !bytesEq(uo.a, data) {
+	if uo := h.unwrapCall(key, blk, want); uo.class != "ok" || !bytesEq(uo.a, data) {
 		c.Got = canonOut(uo)
 		h.res.Violate("aeskw-interop-mismatch", "kit's Unwrap does not recover the key data from an independent RFC 3394 Wrap", c)
 	}
@@ -1421,6 +1453,13 @@ func (h *H) replay(path string) {
 			return
 		}
 	}
+	if fam, _ := generic["family"].(string); fam == "repeat" {
+		var rc Case
+		if err := json.Unmarshal(rf.Case, &rc); err == nil {
+			h.replayRepeat(rc)
+		}
+		return
+	}
 	if fam, _ := generic["family"].(string); fam == "name" {
 		var nc Case
 		if err := json.Unmarshal(rf.Case, &nc); err == nil {
@@ -1472,7 +1511,9 @@ func (h *H) replay(path string) {
 			h.queue("replay", symLine(c.Fn, c.Alg, c.Kind, key, nonce, data, nil, ad), canonEnc(o), c)
 		} else {
 			o := callDec(c.Fn, c.Alg, jk, nonce, data, tag, ad)
-			if c.Monitor == "tamper" || c.Monitor == "roundtrip" {
+			if c.Monitor == "recut" {
+				h.recutMonitor(c, s, o)
+			} else if c.Monitor == "tamper" || c.Monitor == "roundtrip" {
 				if c.Monitor == "tamper" {
 					h.tamperMonitor(c, s, unhx(c.Orig), o)
 				} else if o.class != "ok" || !bytesEq(o.a, unhx(c.Orig)) {
@@ -1498,7 +1539,7 @@ func (h *H) replay(path string) {
 			h.kwWrapMonitor(c, data, o)
 			h.kwInteropMonitor(c, key, data, o)
 		} else {
-			o := h.unwrapCall(blk, data)
+			o := h.unwrapCall(key, blk, data)
 			var orig []byte
 			if c.Orig != "" || c.Monitor == "kw-changed" {
 				orig = unhx(c.Orig)
@@ -1562,6 +1603,8 @@ func main() {
 	for r := 0; r < rounds; r++ {
 		// C03_SKIP=batches,concurrent is for self-tests of the remaining monitors only
 		if skip := os.Getenv("C03_SKIP"); !strings.Contains(skip, "batches") {
+			h.adMatrix()
+			h.repeatCalls()
 			h.batches()
 		}
 		if skip := os.Getenv("C03_SKIP"); !strings.Contains(skip, "concurrent") {
